@@ -200,7 +200,7 @@ class CountingBloomFilter(BloomFilter):
         for k in indices:
             if self._bloom[k] < UINT32_T_MAX:  # only remove if less than UINT32_T_MAX
                 self._bloom[k] -= to_remove
-        self.elements_added -= to_remove
+        self.elements_added = max(self.elements_added - to_remove, 0)
         return min_val - to_remove
 
     def intersection(self, second: "CountingBloomFilter") -> Union["CountingBloomFilter", None]:  # type: ignore
